@@ -123,6 +123,21 @@ def recipes(bct):
         x[2, 1] += 3
         add('nbs_bct', 'unpaired', lambda seed, x=x, y=y: bct.nbs_bct(x.copy(), y.copy(), 1.5, k=8, seed=seed))
         add('nbs_bct', 'paired', lambda seed, x=x, y=y: bct.nbs_bct(x.copy(), y[:, :, :4].copy(), 1.0, k=8, paired=True, seed=seed))
+    big = 230
+    rs = np.random.RandomState(99)
+    Sb = rs.randn(big, big)
+    np.fill_diagonal(Sb, 0)
+    Su = np.triu(Sb, 1)
+    Su = Su + Su.T
+    add('randmio_und_signed', 'n230', lambda seed: bct.randmio_und_signed(Su.copy(), 0.002, seed=seed))
+    add('randmio_dir_signed', 'n230', lambda seed: bct.randmio_dir_signed(Sb.copy(), 0.001, seed=seed))
+    add('null_model_und_sign', 'n230', lambda seed: bct.null_model_und_sign(Su.copy(), 0.002, .01, seed=seed))
+    add('null_model_dir_sign', 'n230', lambda seed: bct.null_model_dir_sign(Sb.copy(), 0.001, .01, seed=seed))
+    add('pick_four_unique_nodes_quickly', 'n230', lambda seed: bct.pick_four_unique_nodes_quickly(big, seed=seed))
+    add('pick_four_unique_nodes_quickly', 'n70000', lambda seed: bct.pick_four_unique_nodes_quickly(70000, seed=seed))
+    Ub = G.er_connected(big, .02, 5)
+    add('randmio_und', 'n230', lambda seed: bct.randmio_und(Ub.copy(), 0.05, seed=seed))
+    add('randmio_und_connected', 'n230', lambda seed: bct.randmio_und_connected(Ub.copy(), 0.05, seed=seed))
     return R
 
 
@@ -222,7 +237,8 @@ def run(case, bct, REC):
     if kind == 'nbs_parallel':
         return nbs_parallel(case, REC)
     label, fn = recipes(bct)[f][case['recipe']]
-    for s in SEEDS:
+    heavy = label.startswith('n230')
+    for s in (SEEDS[:2] if heavy else SEEDS):
         sd = mkseed(s)
         REC.tag(PROP, 'exec')
         ok1, r1 = attempt(fn, sd)
@@ -248,7 +264,7 @@ def run(case, bct, REC):
             REC.tag(PROP, 'no_draws:' + f)
         REC.schedules.add(spy.schedule_hash())
     # ---- unseeded: a function of the global state alone
-    for s in (3, 2 ** 31):
+    for s in ((3,) if heavy else (3, 2 ** 31)):
         REC.tag(PROP, 'exec')
         np.random.seed(s)
         ok1, r1 = attempt(fn, None)
